@@ -175,6 +175,11 @@ func c03alphabet(cf c03conf, thorough bool) []c03frame {
 				add(s, true, "ihl15+doff15")
 				s.Payload = make([]byte, 1380)
 				add(s, true, "ihl15+doff15+1380B")
+				// longer on the wire than any snap length (jumbo MTU, loopback, coalesced segments): the socket
+				// delivers the head of the frame with CaptureLength < Length; the headers are all there
+				s = base
+				s.Kind, s.SrcIP, s.SrcPort, s.TCPFlags, s.Payload = "tcp", src, sp, f, make([]byte, 3000)
+				add(s, true, "3000B-payload")
 				// fragments: outside the iff
 				s = base
 				s.Kind, s.SrcIP, s.SrcPort, s.TCPFlags, s.MF = "tcp", src, sp, f, true
@@ -211,6 +216,9 @@ func c03alphabet(cf c03conf, thorough bool) []c03frame {
 						add(s, true, "ihl15")
 						s.Payload = make([]byte, 1432)
 						add(s, true, "ihl15+1432B")
+						s.IHL, s.Payload = 5, make([]byte, 4000)
+						add(s, true, "4000B-payload")
+						s.IHL = 15
 						s.Payload = []byte{0x45, 0, 0, 28}
 						s.IHL, s.MF = 5, true
 						add(s, false, "first-fragment")
